@@ -499,6 +499,35 @@ theorem written_operand_order (ts : List TensorD) (op : OpD) (p : POp) (h : prep
     restoredInputs ts p.info op.inputs = .ok p.inputs :=
   prepOp_ok ts op p h
 
+/-! ## file → graph → file (what C11 asks of a compilation that changes nothing), layer by layer -/
+
+/-- **file_opcode_preserved.** An operator-code entry the reader accepts is written back with the same builtin code (as
+`builtin_code`, and capped at 127 as `deprecated_builtin_code`), the same version and, for CUSTOM, the same custom code (absent
+= empty); other entries carry no custom code. Rests on the table fact `reader_rows_invert`: no two builtin codes share an `Op`. -/
+theorem file_opcode_preserved (oc : OpCodeT) (rc : Reader.RCode) (h : Reader.parseOpCode oc = .ok rc) :
+    ∃ (b : Nat) (oc' : OpCodeT), Reader.effectiveBuiltin oc = (b : Int) ∧
+      serialiseOpCode { opId := rc.op.id, custom := rc.custom.getD [], version := rc.version } = .ok oc' ∧
+      oc'.builtin = (b : Int) ∧ oc'.deprecated = deprecatedCode b ∧ oc'.version = oc.version ∧
+      oc'.custom = (if b = WriterTbl.builtinCustom then some (oc.custom.getD []) else none) ∧ oc'.extra = [] :=
+  Reader.opcode_preserved oc rc h
+
+/-- **file_tensor_preserved.** A tensor record the reader accepts is written back with the same name (absent = empty), shape
+(absent = scalar), element type and variable flag; its quantisation is the reader's normal form of the file's (`readQuant`:
+dropped without scale and zero point, zero points 0 for a scale without zero points, everything else as in the file). Rests on
+the table fact `dtype_codes_roundtrip`. -/
+theorem file_tensor_preserved (bufs : List (Option Data)) (t : TensorT) (td : TensorD) (b : Nat) (h : Reader.parseTensor bufs t = .ok td) :
+    ∃ tt, tensorT td b = .ok tt ∧ tt.name = some (t.name.getD []) ∧ tt.shape = some (t.shape.getD []) ∧ tt.type = t.type ∧
+      tt.quant = (Reader.readQuant t.quant).map quantT ∧ tt.isVariable = t.isVariable ∧ tt.buffer = b ∧ tt.extra = [] :=
+  Reader.tensor_preserved bufs t td b h
+
+/-- the quantisation normal form on three tables: scale and zero points kept with min / max / quantized_dimension; zero points
+filled in; a table that only carries min / max dropped -/
+example : (Reader.readQuant (some { min := some [1], max := none, scale := some [5, 6], zeroPoint := some [0, 1], quantDim := 3 })).map quantT =
+    some { min := some [1], max := none, scale := some [5, 6], zeroPoint := some [0, 1], quantDim := 3 } := by decide
+example : (Reader.readQuant (some { min := none, max := none, scale := some [5, 6], zeroPoint := none, quantDim := 0 })).map quantT =
+    some { min := none, max := none, scale := some [5, 6], zeroPoint := some [0, 0], quantDim := 0 } := by decide
+example : (Reader.readQuant (some { min := some [1], max := some [2], scale := none, zeroPoint := none, quantDim := 0 })).map quantT = none := by decide
+
 /-! ## (e) the reader's representable ranges -/
 
 /-- table fact, re-checked against the regenerated `datatype_map` on every run: for every element type the reader knows,
